@@ -1279,7 +1279,15 @@ func c40Spawn(a []string) string {
 // ---------------------------------------------------------------------------------------------
 // generator
 
+// c40Allowed: the generated lines use the calls the property names (fListed) and nothing else — a race or
+// crash that needs a call outside that list is outside the property's quantifier and must not raise an
+// alarm. WVH_C40_EXTENDED=1 opens the whole table (exploration beyond the property; how the repaired
+// DataChannel / TrackRemote / configuration / gatherer defects were found).
 func c40Allowed(o *c40Op, setup string) bool {
+	if o.Flags&fListed == 0 && os.Getenv("WVH_C40_EXTENDED") == "" {
+		return false
+	}
+
 	return o.Flags&fConn == 0 || c40Connected(setup)
 }
 
